@@ -11,7 +11,8 @@ term algebra* with the standard perfect-cryptography equations:
   "no two different item lists give the same digest unless SHA-256 collides".
 * `sig k m` verifies under `pk k'` for `m'` iff `k' = k ∧ m' = m`, and nothing else verifies
   (deterministic, strongly unforgeable signature).
-* `enc k n ad pt` (AEAD ciphertext‖tag) opens under exactly `(k, n, ad)`; everything else fails.
+* `enc k n ad pt` / `etag k n ad pt` (AEAD ciphertext body / tag of one sealing) open under
+  exactly `(k, n, ad)` and only together; everything else fails.
 * `dh` is the commutative Diffie–Hellman shared secret over secret-key atoms; `kdf` is a free
   constructor.
 
@@ -44,8 +45,10 @@ inductive Term where
   | kdf (secret info : Term)
   /-- Diffie–Hellman shared secret of secret atoms `a ≤ b` (built by `mkDh` only) -/
   | dh (a b : Nat)
-  /-- AEAD ciphertext‖tag -/
+  /-- AEAD ciphertext body -/
   | enc (k nonce ad pt : Term)
+  /-- AEAD authentication tag of the same sealing -/
+  | etag (k nonce ad pt : Term)
 deriving DecidableEq, Repr
 
 /-- a tuple of terms -/
